@@ -187,7 +187,8 @@ def _iterunion_unit():
                     ('I1', ForAll([k], Implies(Or(Y(k), H(k)), R.reach(k)), patterns=[Y(k), H(k)])),
                     ('I2', ForAll([s], Implies(R.seed(s), Or(Y(s), H(s))), patterns=[R.seed(s)])),
                     ('I3', ForAll([i, j], Implies(And(Y(i), R.nxt(i, j)), Or(Y(j), H(j))), patterns=[MultiPattern(Y(i), R.nxt(i, j))])),
-                    ('I4', And(seen >= -1, Or(seen == -1, Y(seen)),
+                    # `seen` starts below every key (any negative value) and is afterwards the last yielded key
+                    ('I4', And(Or(seen < 0, Y(seen)),
                                ForAll([k], Implies(Y(k), And(0 <= k, k <= seen)), patterns=[Y(k)]))),
                     ('I5', ForAll([k], Implies(H(k), k >= seen), patterns=[H(k)])),
                 ]
